@@ -1013,6 +1013,36 @@ fn printer_universe(ctx: &mut Ctx, max_idx_15: bool) -> Vec<Term> {
         uni.push(u.clone());
         uni.push(abs(u));
     }
+    // every parenthesisation case at EVERY nesting depth up to 130 (and around 255/256, 511/512, 1023/1024): a printer that changes its
+    // method at some depth — hands over to an iterative renderer, to another buffer, to a narrower counter — is wrong at exactly one
+    // depth (seed a11: an abstraction in operator position at depth 64 lost its parentheses).  Contexts: d binders, a left spine with d
+    // operands, a right spine of d operand applications; holes: abstraction in operator position, abstraction in operand position,
+    // application in operand position, a lone abstraction
+    {
+        let holes = [app(abs(Var(1)), Var(2)), app(Var(1), abs(Var(1))), app(Var(1), app(Var(2), Var(3))), abs(Var(1)),
+            app(app(abs(Var(1)), abs(Var(2))), app(abs(Var(1)), Var(1)))];
+        let mut depths: Vec<usize> = (1..=130).collect();
+        depths.extend([254usize, 255, 256, 257, 510, 511, 512, 513, 1022, 1023, 1024, 1025]);
+        let stride = if ctx.soak { 7 } else { 1 };
+        for (k, &d) in depths.iter().enumerate() {
+            if k % stride != 0 {
+                continue;
+            }
+            for h in holes.iter() {
+                let mut a = h.clone();
+                let mut l = h.clone();
+                let mut r = h.clone();
+                for j in 0..d {
+                    a = abs(a);
+                    l = app(l, Var(1 + j % 3));
+                    r = app(Var(1 + j % 2), r);
+                }
+                uni.push(a);
+                uni.push(l);
+                uni.push(r);
+            }
+        }
+    }
     // repeated identical subterms: M M, M M M, λ.M M, M (M M) … for small random M (variables, abstractions AND applications)
     let nself = if ctx.thorough { 3000 } else { 400 };
     for _ in 0..nself {
@@ -1107,8 +1137,32 @@ fn idx_range(t: &Term) -> Option<(usize, usize)> {
     }
 }
 
+
+/// Display / Debug on terms CONTAINING UD: outside the domain of C10 ("every term without UD") and C11 (indices 1..=15), so nothing
+/// is demanded of the crate here; the lines only tie the `undefined` arm of the two printers to the model (advisory operation,
+/// found unexecuted by the coverage measurement of tools/coverage.py)
+fn show_ud_terms(ctx: &mut Ctx, which: &str) {
+    let lam = EXPECTED_LAMBDA as u32;
+    let mut ts = vec![Var(0), abs(Var(0)), app(Var(0), Var(0)), abs(app(Var(1), Var(0))), app(abs(Var(0)), abs(abs(app(Var(2), Var(0))))),
+        app(Var(3), app(Var(0), abs(Var(0))))];
+    for _ in 0..200 {
+        let b = 2 + ctx.rng.below(14);
+        let t = random_term(&mut ctx.rng, b, 0, true, 12);
+        if matches!(idx_range(&t), Some((0, _))) {
+            ts.push(t);
+        }
+    }
+    for t in &ts {
+        let line = format!("showu {} {} {}", which, lam, s(t));
+        ctx.op(&line);
+        ctx.nontrivial(&line);
+        ctx.count("advisory_show_ud");
+    }
+}
+
 pub fn c10(ctx: &mut Ctx) {
     check_char_classes(ctx);
+    show_ud_terms(ctx, "c");
     let uni = printer_universe(ctx, false);
     let lam = EXPECTED_LAMBDA as u32;
     ctx.add(if lam == 955 { "build_lambda_glyph" } else { "build_backslash_glyph" }, 1);
@@ -1161,6 +1215,7 @@ pub fn c10(ctx: &mut Ctx) {
 
 pub fn c11(ctx: &mut Ctx) {
     check_char_classes(ctx);
+    show_ud_terms(ctx, "d");
     let uni = printer_universe(ctx, true);
     let lam = EXPECTED_LAMBDA as u32;
     ctx.add(if lam == 955 { "build_lambda_glyph" } else { "build_backslash_glyph" }, 1);
